@@ -72,7 +72,7 @@ func smartDateParseWrapper(format string, tz *time.Location, dateStage KeyBuilde
 		// What the date expression yields when every lookup is empty, which is what static analysis of the
 		// expression evaluates it with (eg. "2020-01-" for "2020-01-{0}"): its format is detected like any
 		// other, but must not be remembered (static analysis would decide the format of the real input)
-		emptyTime, _ := EvalStaticStage(dateStage)
+		emptyTime, constTime := EvalStaticStage(dateStage)
 
 		return KeyBuilderStage(func(context KeyBuilderContext) string {
 			strTime := dateStage(context)
@@ -87,6 +87,12 @@ func smartDateParseWrapper(format string, tz *time.Location, dateStage KeyBuilde
 			format := &atomicFormat
 			if InStaticAnalysis(context) {
 				format = &staticFormat
+				if !constTime {
+					// The date is constant only as far as this evaluation goes (a sub-expression or user-defined
+					// function handed it constant values, eg. {ts "oct 7,  1970"}): on input the answer also depends
+					// on the format remembered from earlier dates (which may parse what could not be detected)
+					context.GetMatch(-1) // HACK: Touch the context so it doesn't get optimized out
+				}
 			}
 
 			liveFormat := format.Load().(string)
